@@ -39,14 +39,23 @@ theorem bitsOK_zeros (D : Data) : BitsOK D (Bits.zeros D.n) := by
   simp [Bits.zeros, hi]
 
 theorem set_spec (D : Data) (b : Bits) (i : Nat) (hb : BitsOK D b) (hi : i < D.n) :
-    ∃ b', b.set i = .ok b' ∧ BitsOK D b' := by
+    ∃ b', b.set i = .ok b' ∧ BitsOK D b' ∧ b'.data.getD i false = true ∧
+      ∀ k, b.data.getD k false = true → b'.data.getD k false = true := by
   have his : i < b.data.size := by rw [hb.1]; exact hi
   unfold Bits.set
   rw [if_pos his]
   cases h : b.data.getD i false with
-  | true => exact ⟨b, by simp, hb⟩
+  | true => exact ⟨b, by simp, hb, h, fun _ hk => hk⟩
   | false =>
-    refine ⟨⟨b.data.setIfInBounds i true, b.count + 1⟩, by simp, ?_, ?_⟩
+    have hmono : ∀ k, b.data.getD k false = true → (b.data.setIfInBounds i true).getD k false = true := by
+      intro k hk
+      rw [getD_setIfInBounds]
+      by_cases e : i = k ∧ i < b.data.size
+      · rw [if_pos e]
+      · rw [if_neg e]; exact hk
+    have hset : (b.data.setIfInBounds i true).getD i false = true := by
+      rw [getD_setIfInBounds, if_pos ⟨rfl, his⟩]
+    refine ⟨⟨b.data.setIfInBounds i true, b.count + 1⟩, by simp, ⟨?_, ?_⟩, hset, hmono⟩
     · show (b.data.setIfInBounds i true).size = D.n
       rw [Array.size_setIfInBounds]; exact hb.1
     · show b.count + 1 = alignCount D (fun k => (b.data.setIfInBounds i true).getD k false)
@@ -63,21 +72,35 @@ theorem set_spec (D : Data) (b : Bits) (i : Nat) (hb : BitsOK D b) (hi : i < D.n
 
 theorem seedLoop_spec (D : Data) (seeds : List Nat) (b : Bits) (acc : List Nat)
     (hb : BitsOK D b) (hs : ∀ i, i ∈ seeds → i < D.n) (hacc : ∀ i, i ∈ acc → i < D.n) :
-    ∃ b' seed, seedLoop seeds b acc = .ok (b', seed) ∧ BitsOK D b' ∧ ∀ i, i ∈ seed → i < D.n := by
+    ∃ b' seed, seedLoop seeds b acc = .ok (b', seed) ∧ BitsOK D b' ∧ (∀ i, i ∈ seed → i < D.n) ∧
+      (∀ k, (b.data.getD k false = true ∨ k ∈ seeds) → b'.data.getD k false = true) := by
   induction seeds generalizing b acc with
-  | nil => exact ⟨b, acc, rfl, hb, hacc⟩
+  | nil => exact ⟨b, acc, rfl, hb, hacc, fun k hk => by
+      cases hk with
+      | inl h => exact h
+      | inr h => cases h⟩
   | cons i is ih =>
-    obtain ⟨b1, h1, hb1⟩ := set_spec D b i hb (hs i (List.mem_cons_self ..))
+    obtain ⟨b1, h1, hb1, hset, hmono⟩ := set_spec D b i hb (hs i (List.mem_cons_self ..))
     unfold seedLoop
     rw [h1]; dsimp only
-    apply ih b1 (acc ++ [i]) hb1 (fun k hk => hs k (List.mem_cons_of_mem _ hk))
+    obtain ⟨b', seed, h2, h3, h4, h5⟩ := ih b1 (acc ++ [i]) hb1 (fun k hk => hs k (List.mem_cons_of_mem _ hk))
+      (by
+        intro k hk
+        rw [List.mem_append] at hk
+        cases hk with
+        | inl h => exact hacc k h
+        | inr h =>
+          rw [List.mem_singleton] at h
+          rw [h]; exact hs i (List.mem_cons_self ..))
+    refine ⟨b', seed, h2, h3, h4, ?_⟩
     intro k hk
-    rw [List.mem_append] at hk
+    apply h5
     cases hk with
-    | inl h => exact hacc k h
+    | inl h => exact Or.inl (hmono k h)
     | inr h =>
-      rw [List.mem_singleton] at h
-      rw [h]; exact hs i (List.mem_cons_self ..)
+      cases h with
+      | head => exact Or.inl hset
+      | tail _ h' => exact Or.inr h'
 
 /-! ### the two construction loops of `_new` -/
 
@@ -164,7 +187,8 @@ theorem init_spec {K : Nat} {D : Data} {P : Params} {ic : InitChoice}
     (D.wraps.any (· < P.w) = true ∧ init (K := K) D P ic = .error "booh") ∨
     (D.wraps.any (· < P.w) = false ∧ ∃ s : State K, init D P ic = .ok s ∧ Inv D P.w s ∧
       s.starts = ic.starts ∧ s.step = 0 ∧ s.converged = false ∧
-      (P.zoops = false → ∀ i, i < D.n → act s i = true)) := by
+      (P.zoops = false → ∀ i, i < D.n → act s i = true) ∧
+      (P.zoops = true → ∀ i, i ∈ ic.seeds → act s i = true)) := by
   obtain ⟨hn, hin, hseeds⟩ := hadm
   unfold init
   cases hw : D.wraps.any (· < P.w) with
@@ -185,22 +209,24 @@ theorem init_spec {K : Nat} {D : Data} {P : Params} {ic : InitChoice}
     -- the active flags
     have hbits : ∃ b seed, (if P.zoops = true then seedLoop ic.seeds (Bits.zeros D.n) []
           else .ok (Bits.ones D.n, [])) = .ok (b, seed) ∧ BitsOK D b ∧ (∀ i, i ∈ seed → i < D.n) ∧
-          (P.zoops = false → ∀ i, i < D.n → b.data.getD i false = true) := by
+          (P.zoops = false → ∀ i, i < D.n → b.data.getD i false = true) ∧
+          (P.zoops = true → ∀ i, i ∈ ic.seeds → b.data.getD i false = true) := by
       cases hz : P.zoops with
       | true =>
-        obtain ⟨b, seed, h1, h2, h3⟩ := seedLoop_spec D ic.seeds (Bits.zeros D.n) [] (bitsOK_zeros D)
+        obtain ⟨b, seed, h1, h2, h3, h4⟩ := seedLoop_spec D ic.seeds (Bits.zeros D.n) [] (bitsOK_zeros D)
           (hseeds hz).1 (fun i hi => by cases hi)
-        exact ⟨b, seed, by rw [if_pos rfl]; exact h1, h2, h3, fun h => by cases h⟩
+        exact ⟨b, seed, by rw [if_pos rfl]; exact h1, h2, h3, (fun h => by cases h),
+          fun _ i hi => h4 i (Or.inr hi)⟩
       | false =>
         exact ⟨Bits.ones D.n, [], by rw [if_neg (by simp)], bitsOK_ones D, (fun i hi => by cases hi),
-          fun _ i hi => ones_getD D.n i hi⟩
-    obtain ⟨b, seed, hb1, hb2, hb3, hb4⟩ := hbits
+          (fun _ i hi => ones_getD D.n i hi), fun h => by cases h⟩
+    obtain ⟨b, seed, hb1, hb2, hb3, hb4, hb5⟩ := hbits
     rw [hb1]; dsimp only
     obtain ⟨m, hm1, hm2, hm3⟩ := initMotif_ok (K := K) hwf P.w ic.starts b.data hin
     rw [hm1]; dsimp only
     obtain ⟨bg, hg1, hg2, hg3⟩ := initBg_ok (K := K) hwf P.w ic.starts b.data hin
     rw [hg1]; dsimp only
-    refine ⟨_, rfl, ?_, rfl, rfl, rfl, hb4⟩
+    refine ⟨_, rfl, ?_, rfl, rfl, rfl, hb4, hb5⟩
     constructor
     · exact hn
     · exact hb2.1
